@@ -943,6 +943,25 @@ def construct_class(src, outcome, cls, mutation):
             return o
     if _VAR.match(text):
         return _origin(src, text, off)
+    if not ids and re.match(r"^[A-Z][\w<>(), ]*$", text):
+        # the error is reported at a type hint (a failed parameter / return annotation check): look at the variables
+        # of the function or lambda body that follows the hint
+        k = src.find("{", off)
+        if k >= 0:
+            depth, j = 0, k
+            while j < len(src):
+                if src[j] == "{":
+                    depth += 1
+                elif src[j] == "}":
+                    depth -= 1
+                    if depth == 0:
+                        break
+                j += 1
+            for v in dict.fromkeys(_IDENT.findall(src[k:j])):
+                if _VAR.match(v):
+                    o = _origin(src, v, k + 1)
+                    if o in HOLE_ORIGINS:
+                        return o
     head = text.lstrip("(")
     if head.startswith("if "):
         return "if-branch-join"
